@@ -461,6 +461,13 @@ pub fn c07(t: &dyn TypeOps, cx: &mut Cx) {
             o => { cx.violate(&format!("ser-{}", o.class()), json!({"value": vdesc(i, &want), "observed": o.describe()})); continue; }
         }
         if i >= cx.tier.pick(3, 12) { continue; }
+        // the schema-recording writer pads exactly like the plain one (same count, same bytes)
+        if let Out::Ok(so) = t.ser_schema(i) {
+            cx.evals += 1;
+            if so.bytes.len() != enc.bytes.len() || !masked_eq(&so.bytes, &enc.bytes, &enc.mask) {
+                cx.violate("schema-writer-stream-differs-in-count-or-padding", json!({"value": vdesc(i, &want), "schema_len": so.bytes.len(), "model_len": enc.bytes.len()}));
+            }
+        }
         // the returned count is the number of bytes the writer RECEIVED, also when the writer
         // accepts a request only in part (a short write at any one point, then the rest)
         {
